@@ -127,7 +127,10 @@ def _cfg_st(draw, tier, classes=("BPSK", "QPSK", "PSK", "PSK", "QAM", "QAM")):
     phis = st.one_of(
         fl(-2 * math.pi, 2 * math.pi),
         st.sampled_from(SPECIAL_PHIS).map(lambda n: _special_phi(n, M)),
-        fl(-1e-6, 1e-6), fl(-12.0, 12.0))
+        fl(-1e-6, 1e-6), fl(-12.0, 12.0),
+        # offsets typed as short decimals (3.3, 0.25, -7.85)
+        st.integers(-120, 120).map(lambda k: k / 10.0),
+        st.integers(-1200, 1200).map(lambda k: k / 100.0))
     phi = None
     if cls == "PSK":
         phi = draw(st.one_of(st.none(), phis, phis))
